@@ -112,6 +112,12 @@ class Repo:
                 try:
                     src = path.read_text()
                     tree = ast.parse(src, filename=rel)
+                    # behaviour-preserving normal form applied once to the whole program, so that no rule depends on how a
+                    # negation or a comparison happens to be spelled: `not a is b` -> `a is not b`, `not a in b` -> `a not in b`,
+                    # `not a == b` -> `a != b`, `not not x` -> `x`, `1 == x` -> `x == 1`, isinstance class tuples sorted
+                    from .norm import canon_tree
+
+                    tree = canon_tree(tree)
                 except (SyntaxError, UnicodeDecodeError) as e:  # a tree that does not compile is not analysable
                     self.parse_errors.append(f"{rel}: {e}")
                     continue
